@@ -21,7 +21,9 @@ PROP = {
                   "operations are serialised with each other by a lock, as home's control lock does in production) || "
                   "0-2 reader goroutines (the configuration save that onConfigModified performs, and 11 read-only "
                   "endpoints) which run unserialised. Real query log (memory size 8, so flushes happen), real "
-                  "statistics, real client storage, filter refresh and the protection re-enable goroutine take part. "
+                  "statistics, real client storage, filter refresh and the protection re-enable goroutine take part; "
+                  "HTTPS answers carry 24 address hints so that response filtering runs its nested per-hint lookups "
+                  "while admin operations queue for the write lock. "
                   "The binary is built with -race and GORACE=halt_on_error: any reported race ends the process with "
                   "exit 66 and is a violation whose replay is the program.json written before the program ran; every "
                   "query must produce a packable response echoing id and question or be refused by the access "
